@@ -90,14 +90,14 @@ def gen(rng, scenario, tier):
         cfg["burn_in"] = rng.choice([12, 20, 30])
     k = adapters.kind(name)
     if k == "batch":
-        bs, drifts = workload.batches(rng, rng.randint(8, 18), adapters.n_features(rng, name), 10, 40)
+        bs, drifts = workload.batches(rng, rng.randint(8, 18), adapters.n_features(rng, name), 10, 40, regimes=("offset", "tiny"))
         ev = [[b_, np_seed(rng)] for b_ in bs]
         refs = [i for i in range(1, len(ev)) if rng.random() < 0.25]     # explicit set_reference: thresholds are redrawn often
         if name == "KdqTreeBatch":
             cfg["bootstrap_samples"] = rng.choice([5, 6, 8, 12])
     elif k == "x":
         knd = rng.choice(["gauss", "ramp", "heavy"]) if name == "CUSUM" else None
-        xs, drifts = workload.stream_values(rng, rng.randint(80, 300), kind=knd)
+        xs, drifts = workload.stream_values(rng, rng.randint(80, 300), kind=knd, regimes=("tiny",) if name == "ADWIN" else ("offset", "tiny"))
         ev = [[x, np_seed(rng)] for x in xs]
     elif k == "y":
         n = rng.randint(60, 140) if name == "LinearFourRates" else rng.randint(80, 300)
